@@ -1,0 +1,43 @@
+//go:build verif
+
+package schedulerplugin
+
+import (
+	corev1 "k8s.io/api/core/v1"
+	"tkestack.io/galaxy/pkg/ipam/cloudprovider"
+	"tkestack.io/galaxy/pkg/ipam/crd"
+	"tkestack.io/galaxy/pkg/ipam/floatingip"
+)
+
+// Verification hooks (build tag verif). Thin wrappers only, no logic of their own.
+
+// VerifResyncPod runs one resync pass.
+func (p *FloatingIPPlugin) VerifResyncPod() error { return p.resyncPod() }
+
+// VerifSyncPodIPs runs one pod-IP sync pass.
+func (p *FloatingIPPlugin) VerifSyncPodIPs() { p.syncPodIPsIntoDB() }
+
+// VerifUnbind runs one unbind for the given pod object.
+func (p *FloatingIPPlugin) VerifUnbind(pod *corev1.Pod) error { return p.unbind(pod) }
+
+// VerifUpdateConfigMap runs one configmap reload.
+func (p *FloatingIPPlugin) VerifUpdateConfigMap() (bool, error) { return p.updateConfigMap() }
+
+// VerifSetCloudProvider sets the cloud provider.
+func (p *FloatingIPPlugin) VerifSetCloudProvider(cp cloudprovider.CloudProvider) { p.cloudProvider = cp }
+
+// VerifPopUnreleased does a non-blocking receive from the unreleased channel.
+func (p *FloatingIPPlugin) VerifPopUnreleased() *corev1.Pod {
+	select {
+	case e := <-p.unreleased:
+		return e.pod
+	default:
+		return nil
+	}
+}
+
+// VerifWrapIPAM interposes a decorator around the IPAM in use.
+func (p *FloatingIPPlugin) VerifWrapIPAM(f func(floatingip.IPAM) floatingip.IPAM) { p.ipam = f(p.ipam) }
+
+// VerifSetCrdCache replaces the custom resource cache.
+func (p *FloatingIPPlugin) VerifSetCrdCache(c crd.CrdCache) { p.crdCache = c }
